@@ -346,8 +346,10 @@ Definition naive (ops : list (Z * Z * nat)) (q : Z) : list nat :=
 
 Definition disjoint_b (a b : Z) (op : Z * Z * nat) : bool := let '(a', b', _) := op in (b' <? a) || (b <? a').
 
+Definition valid_op (op : Z * Z * nat) : Prop := let '(a, b, _) := op in a <= b.
+
 Definition Inv (t : list PE) (ops : list (Z * Z * nat)) : Prop :=
-  (exists lo, chain_from lo t) /\ forall q, lk t q = naive ops q.
+  (exists lo, chain_from lo t) /\ (forall q, lk t q = naive ops q) /\ Forall valid_op ops.
 
 Lemma naive_app ops1 ops2 q : naive (ops1 ++ ops2) q = naive ops1 q ++ naive ops2 q.
 Proof. unfold naive. apply flat_map_app. Qed.
@@ -453,3 +455,95 @@ Section LoopFacts.
         injection H as _ _ <- _ _. apply iloop_prev_some in Hrec. split; [intros; contradiction|lia].
   Qed.
 End LoopFacts.
+
+Lemma naive_cons a' b' v' r q :
+  naive ((a', b', v') :: r) q = (if (a' <=? q) && (q <=? b') then [v'] else []) ++ naive r q.
+Proof. reflexivity. Qed.
+
+Lemma naive_disjoint ops a b : a <= b -> Forall valid_op ops ->
+  ((forall q, a <= q <= b -> naive ops q = []) <-> forallb (disjoint_b a b) ops = true).
+Proof.
+  intros Hab Hv. induction ops as [|[[a' b'] v'] r IH].
+  - cbn. split; [reflexivity|intros; reflexivity].
+  - inversion Hv as [|? ? Hop Hv']; subst. cbn [valid_op] in Hop. specialize (IH Hv').
+    cbn [forallb disjoint_b]. rewrite andb_true_iff. rewrite <- IH. split.
+    + intros H. split.
+      * destruct (Z.ltb_spec b' a) as [H1|H1]; [reflexivity|]. destruct (Z.ltb_spec b a') as [H2|H2]; [reflexivity|].
+        exfalso. specialize (H (Z.max a a') ltac:(lia)). rewrite naive_cons in H.
+        destruct (Z.leb_spec a' (Z.max a a')); [|lia]. destruct (Z.leb_spec (Z.max a a') b'); [|lia].
+        cbn [andb app] in H. discriminate.
+      * intros q Hq. specialize (H q Hq). rewrite naive_cons in H. apply app_eq_nil in H. apply H.
+    + intros [H1 H2] q Hq. rewrite naive_cons, (H2 q Hq), app_nil_r.
+      apply orb_true_iff in H1. destruct (Z.leb_spec a' q); [|reflexivity]. destruct (Z.leb_spec q b'); [|reflexivity].
+      destruct H1 as [H1|H1]; apply Z.ltb_lt in H1; lia.
+Qed.
+
+Lemma rest_flag lo2 before rest a b :
+  a <= b -> Forall (fun x : PE => eE x < a) before -> chain_from lo2 rest ->
+  match rest with [] => True | e :: _ => a <= eE e end ->
+  (match rest with [] => True | e :: _ => b < eS e end <-> forall q, a <= q <= b -> lk (before ++ rest) q = []).
+Proof.
+  intros Hab Hbef Hc Hhd. split.
+  - intros H q Hq. rewrite (lk_skip before rest a q Hbef) by lia.
+    destruct rest as [|e r]; [reflexivity|]. rewrite lk_cons. cbn [chain_from] in Hc.
+    destruct (Z.ltb_spec (eE e) q); [lia|]. destruct (Z.ltb_spec q (eS e)); [reflexivity|lia].
+  - intros H. destruct rest as [|e r]; [exact I|]. cbn [chain_from] in Hc. destruct Hc as [_ [Hse [Hv _]]].
+    destruct (Z.ltb_spec b (eS e)) as [|Hge]; [assumption|]. exfalso.
+    specialize (H (Z.max a (eS e)) ltac:(lia)). rewrite (lk_skip before (e :: r) a) in H by (try assumption; lia).
+    rewrite lk_cons in H. destruct (Z.ltb_spec (eE e) (Z.max a (eS e))); [lia|].
+    destruct (Z.ltb_spec (Z.max a (eS e)) (eS e)); [lia|]. contradiction.
+Qed.
+
+(* one Insert of the repaired code *)
+Lemma pinsert_repaired t ops a b v :
+  Inv t ops -> a <= b ->
+  exists t' hz, pinsert repaired t tt a b v = IOk t' tt (forallb (disjoint_b a b) ops) hz
+                /\ Inv t' (ops ++ [(a, b, v)]).
+Proof.
+  intros [[lo Hc] [Hlk Hval]] Hab. unfold pinsert, iinsert.
+  destruct (Z.ltb_spec b a) as [|_]; [lia|].
+  pose proof (seek_split_app t a) as Happ. pose proof (seek_split_before t a) as Hbef.
+  pose proof (seek_split_head t a) as Hhead.
+  destruct (seek_split t a) as [before rest]. cbn [fst snd] in *.
+  assert (Hc0 : chain_from (Z.min lo a) (before ++ rest)).
+  { rewrite Happ. eapply chain_from_weaken; [|exact Hc]. lia. }
+  destruct (chain_split before (Z.min lo a) rest a ltac:(lia) Hc0 Hbef) as [lo2 [Hlo2 [Hc2 Hctx]]].
+  assert (Hhd : match rest with [] => True | e :: _ => a <= eE e end).
+  { destruct rest as [|e r]; [exact I|]. eapply Hhead. reflexivity. }
+  assert (Hpre : pre rest a None).
+  { split; [cbn [next_a]; lia|]. destruct rest as [|e r]; [exact I|]. split; [exact Hhd|exact I]. }
+  destruct (xloop_spec a b v Hab rest None lo2 Hc2 Hlo2 Hpre) as [HcX HlkX].
+  fold (ploop repaired tt rest a b v None).
+  destruct (ploop repaired tt rest a b v None) as [[[[rest' pend] prev] st'] hz] eqn:Hloop. destruct st'.
+  pose proof (xloop_elems a b v Hab rest None lo2 rest' pend prev hz Hc2 Hpre Hloop) as Hel.
+  pose proof Hloop as Hkeys. unfold ploop in Hkeys. apply iloop_keys in Hkeys.
+  pose proof Hloop as Hnone. unfold ploop in Hnone. apply iloop_prev_none in Hnone.
+  set (L := before ++ xloop rest a b v None).
+  assert (HL : chain_from (Z.min lo a) L) by (apply Hctx, HcX).
+  assert (Hbase : ksorted (before ++ rest')).
+  { apply (ksorted_keys (before ++ rest)); [rewrite !map_app, Hkeys; reflexivity|].
+    rewrite Happ. eapply chain_ksorted. exact Hc. }
+  assert (Hfold : fold_left tset (pend ++ trailing a b v prev) (before ++ rest') = L).
+  { apply fold_tset_eq; [exact Hbase|apply (chain_ksorted _ _ HL)|].
+    intros x. unfold L. rewrite !in_app_iff. rewrite Hel. tauto. }
+  assert (HInv : Inv L (ops ++ [(a, b, v)])).
+  { split; [exists (Z.min lo a); exact HL|]. split.
+    - intros q. unfold L.
+      rewrite (lk_ctx before rest (xloop rest a b v None) (extra a b v None) a Hbef HlkX).
+      + rewrite Happ, Hlk, naive_app. unfold extra, naive. cbn [flat_map next_a]. rewrite app_nil_r. reflexivity.
+      + intros q' Hq'. unfold extra. cbn [next_a]. destruct (Z.leb_spec a q'); [lia|reflexivity].
+    - apply Forall_app. split; [exact Hval|]. constructor; [exact Hab|constructor]. }
+  assert (Hflag : prev = None <-> forallb (disjoint_b a b) ops = true).
+  { rewrite Hnone. rewrite (rest_flag lo2 before rest a b Hab Hbef Hc2 Hhd). rewrite Happ.
+    rewrite <- (naive_disjoint ops a b Hab Hval). split; intros H q Hq; [rewrite <- Hlk|rewrite Hlk]; apply H, Hq. }
+  destruct prev as [p|].
+  - assert (Hd : forallb (disjoint_b a b) ops = false).
+    { destruct (forallb (disjoint_b a b) ops); [|reflexivity]. destruct Hflag as [_ Hf]. discriminate (Hf eq_refl). }
+    rewrite Hd. unfold trailing in Hfold. cbn [next_a] in Hfold. cbn [pmk1].
+    destruct (Z.ltb_spec (eE p) b); destruct (Z.leb_spec (eE p + 1) b); try lia.
+    + rewrite Hfold. exists L, hz. split; [reflexivity|exact HInv].
+    + rewrite app_nil_r in Hfold. rewrite Hfold. exists L, hz. split; [reflexivity|exact HInv].
+  - rewrite (proj1 Hflag eq_refl). unfold trailing in Hfold. cbn [next_a] in Hfold. cbn [pmk1].
+    destruct (Z.leb_spec a b); [|lia]. rewrite fold_left_app in Hfold. cbn [fold_left] in Hfold.
+    rewrite Hfold. exists L, hz. split; [reflexivity|exact HInv].
+Qed.
